@@ -52,7 +52,7 @@ fn plan(prop: &str, tier: &str) -> (&'static str, u64) {
         "C07" => ("seq", if thorough { 400000 } else { 10000 }),
         "C08" => ("seq", if thorough { 120000 } else { 6000 }),
         "C03" => ("seq", if thorough { 500000 } else { 8000 }),
-        "C02" => ("crash", if thorough { 40000 } else { 1200 }),
+        "C02" => ("crash", if thorough { 16000 } else { 1200 }),
         "C11" => ("fault", if thorough { 5000 } else { 320 }),
         "C10" => ("long", if thorough { 5000 } else { 800 }),
         "C16" => ("cfg", if thorough { 320 } else { 128 }),
